@@ -476,7 +476,18 @@ func (f *Frame) contractCall(c *ssa.CallCommon, ct *FuncContract, callee *ssa.Fu
 	}
 	pre := f.st.clone()
 	var prov provSet
-	for _, a := range args {
+	for i, a := range args {
+		borrowed := false
+		if i < len(names) {
+			for _, b := range ct.Borrows {
+				if b == names[i] {
+					borrowed = true
+				}
+			}
+		}
+		if borrowed {
+			continue
+		}
 		prov = prov.union(a.Prov)
 	}
 	prov = prov.closure()
